@@ -311,4 +311,79 @@ theorem pointwise_map (R : Str → Str → Prop) (f : Str → Str) (h : ∀ l, R
   | [] => Pointwise.nil
   | l :: ls => Pointwise.cons (h l) (pointwise_map R f h ls)
 
+theorem step_oneLineBlock (st : St) (l body : Str) (hB : st.atBoundary = true) (hml : st.mlComment = false)
+    (h : oneLineBlock (strip l) = some body) :
+    step st l = .ok ({ st with comment := some body }, []) := by
+  simp only [St.atBoundary, Bool.and_eq_true, Option.isNone_iff_eq_none] at hB
+  unfold oneLineBlock at h
+  simp only [] at h
+  split at h
+  · rename_i hc
+    simp only [Bool.and_eq_true, Bool.not_eq_true', List.isEmpty_eq_false_iff, Bool.or_eq_false_iff] at hc
+    obtain ⟨⟨⟨⟨h1, h2⟩, h3⟩, h4⟩, h5, h6⟩ := hc
+    injection h with h
+    unfold step stepV
+    simp [hB.1, hB.2, h1, h2, h3, h4, hml, h5, h6, h]
+  · cases h
+
+theorem oneLineBlock_hash (c : Str) : oneLineBlock ('#' :: c) = none := by
+  simp [oneLineBlock, startsWith]
+
+theorem run_commentLinesB (ls : List Str)
+    (h : ∀ l ∈ ls, strip l = [] ∨ (∃ c, strip l = '#' :: c) ∨ ∃ body, oneLineBlock (strip l) = some body) (X : List Str) : ∀ (st : St),
+    st.atBoundary = true → st.mlComment = false → run st (ls ++ X) = run { st with comment := commentOfB st.comment ls } X := by
+  induction ls with
+  | nil => intro st _ _; rfl
+  | cons l ls ih =>
+    intro st hB hml
+    have ih' := ih (fun x hx => h x (by simp [hx]))
+    rcases h l (by simp) with hb | ⟨c, hc⟩ | ⟨body, hbody⟩
+    · simp only [List.cons_append, run, step_blank st l hb hB]
+      rw [ih' st hB hml]
+      have : commentOfB st.comment (l :: ls) = commentOfB st.comment ls := by
+        simp [commentOfB, hb, oneLineBlock]
+      rw [this]
+      cases run _ X <;> simp
+    · have hB1 : ({ st with comment := addComment st.comment (strip c) } : St).atBoundary = true := by
+        simpa [St.atBoundary] using hB
+      simp only [List.cons_append, run, step_hashLine st l c hB hc]
+      rw [ih' _ hB1 hml]
+      simp only [commentOfB, hc]
+      cases run _ X <;> simp
+    · have hB1 : ({ st with comment := some body } : St).atBoundary = true := by
+        simpa [St.atBoundary] using hB
+      simp only [List.cons_append, run, step_oneLineBlock st l body hB hml hbody]
+      rw [ih' _ hB1 hml]
+      have : commentOfB st.comment (l :: ls) = commentOfB (some body) ls := by
+        cases hs : strip l with
+        | nil => rw [hs] at hbody; simp [oneLineBlock] at hbody
+        | cons a r =>
+          by_cases ha : a = '#'
+          · subst ha; rw [hs, oneLineBlock_hash] at hbody; cases hbody
+          · rw [hs] at hbody
+            simp only [commentOfB, hs]
+            split
+            · rename_i c' heq; simp at heq; exact absurd heq.1 ha
+            · simp [hbody]
+      rw [this]
+      cases run _ X <;> simp
+
+theorem numbered_comment_block_attach (pre post block : List Str) (stmt : Str)
+    (st' : St) (out : List Rec) (hpre : runPre St.init pre = .ok (st', out))
+    (hB : st'.atBoundary = true) (hml : st'.mlComment = false)
+    (hblock : ∀ l ∈ block, strip l = [] ∨ (∃ c, strip l = '#' :: c) ∨ ∃ body, oneLineBlock (strip l) = some body)
+    (hs : plainStmt (strip stmt) = true) :
+    numbered (pre ++ (block ++ stmt :: post)) =
+      (run { st' with comment := none, pending := none } post).map fun rest =>
+        out ++ { text := firstPart (strip stmt), indentation := lead stmt, comment := commentOfB st'.comment block } :: rest := by
+  unfold numbered
+  rw [run_append, hpre]
+  have hB1 : ({ st' with comment := commentOfB st'.comment block } : St).atBoundary = true := by
+    simpa [St.atBoundary] using hB
+  have hstep := step_plainStmt { st' with comment := commentOfB st'.comment block } stmt hB1 hml hs
+  simp only []
+  rw [run_commentLinesB block hblock _ st' hB hml]
+  simp only [run, hstep]
+  cases run { st' with comment := none, pending := none } post <;> simp [Except.map]
+
 end NemoVerif.NumberedLines
